@@ -138,7 +138,9 @@ func c18Body(c *Ctx, r *Report, info *types.Info, tname string, fd *ast.FuncDecl
 		pos  token.Pos
 	}
 	perSrc := map[string][]slice{}
-	checkSlice := func(e ast.Expr, dst string, dstT types.Type, guardSrc string, pos token.Pos) {
+	elseOf := "" // non-empty while walking the else branch of the validity guard of that source
+	firstUseAsSrc := map[string]token.Pos{}
+	checkSlice := func(e ast.Expr, dst string, dstT types.Type, guardSrc string, pos token.Pos) (recognised bool) {
 		// T((src >> s) & mask)  [optionally wrapped in acc.accumulate(...)]
 		e = unparen(e)
 		if call, ok := e.(*ast.CallExpr); ok && len(call.Args) == 1 {
@@ -148,28 +150,28 @@ func c18Body(c *Ctx, r *Report, info *types.Info, tname string, fd *ast.FuncDecl
 		}
 		conv, ok := e.(*ast.CallExpr)
 		if !ok || len(conv.Args) != 1 {
-			return
+			return false
 		}
 		tv, ok := info.Types[conv.Fun]
 		if !ok || !tv.IsType() {
-			return
+			return false
 		}
 		and, ok := unparen(conv.Args[0]).(*ast.BinaryExpr)
 		if !ok || and.Op != token.AND {
-			return
+			return false
 		}
 		shr, ok := unparen(and.X).(*ast.BinaryExpr)
 		if !ok || shr.Op != token.SHR {
-			return
+			return false
 		}
 		src, srcT, ok := fieldOf(shr.X)
 		if !ok {
-			return
+			return false
 		}
 		s, ok1 := exprInt(info, shr.Y)
 		m, ok2 := exprUint(info, and.Y)
 		if !ok1 || !ok2 {
-			return
+			return false
 		}
 		// m must be 2^b - 1
 		b := 0
@@ -180,7 +182,7 @@ func c18Body(c *Ctx, r *Report, info *types.Info, tname string, fd *ast.FuncDecl
 		n++
 		if m != (uint64(1)<<uint(b))-1 {
 			r.fail("C18-R2-bit-slice", key, c.pos(pos), fmt.Sprintf("mask %#x is not of the form 2^b-1", m))
-			return
+			return true
 		}
 		wSrc, wDst, wConv := typeWidth(srcT), typeWidth(dstT), typeWidth(tv.Type)
 		switch {
@@ -190,11 +192,19 @@ func c18Body(c *Ctx, r *Report, info *types.Info, tname string, fd *ast.FuncDecl
 			r.fail("C18-R2-bit-slice", key, c.pos(pos), fmt.Sprintf("%d-bit slice is truncated by the %d-bit destination %s", b, wDst, dst))
 		case guardSrc != src:
 			r.fail("C18-R2-bit-slice", key, c.pos(pos), fmt.Sprintf("slice of %s is not inside the block guarded by %s != invalid: an invalid source would overwrite the destination", src, src))
+		case elseOf != "":
+			r.fail("C18-R2-bit-slice", key, c.pos(pos), fmt.Sprintf("the expansion of %s into %s sits in the else branch of the guard of %s: it runs only when %s is invalid, so a valid %s is not expanded whenever %s is set too (and components of %s taken above never see the expanded value)", src, dst, elseOf, elseOf, src, elseOf, dst))
+		case firstUseAsSrc[dst] != token.NoPos && firstUseAsSrc[dst] < pos:
+			r.fail("C18-R2-bit-slice", key, c.pos(pos), fmt.Sprintf("%s is filled from %s after the components of %s itself were taken (at %s): those destinations are computed from the unexpanded value", dst, src, dst, c.pos(firstUseAsSrc[dst])))
 		default:
 			r.ok("C18-R2-bit-slice", key, c.pos(pos), fmt.Sprintf("%d bits at %d of %d-bit %s into %d-bit %s", b, s, wSrc, src, wDst, dst))
 		}
+		if firstUseAsSrc[src] == token.NoPos {
+			firstUseAsSrc[src] = pos
+		}
 		perSrc[src+"@"+fmt.Sprint(pos)] = nil
 		perSrc[src] = append(perSrc[src], slice{int(s), b, dst, pos})
+		return true
 	}
 	walk = func(list []ast.Stmt, guardSrc string, guardW int) {
 		for _, s := range list {
@@ -224,8 +234,18 @@ func c18Body(c *Ctx, r *Report, info *types.Info, tname string, fd *ast.FuncDecl
 					}
 				}
 				walk(x.Body.List, g, guardW)
-				if eb, ok := x.Else.(*ast.BlockStmt); ok {
-					walk(eb.List, guardSrc, guardW)
+				if x.Else != nil {
+					saved := elseOf
+					if g != guardSrc {
+						elseOf = g
+					}
+					switch eb := x.Else.(type) {
+					case *ast.BlockStmt:
+						walk(eb.List, guardSrc, guardW)
+					case *ast.IfStmt:
+						walk([]ast.Stmt{eb}, guardSrc, guardW)
+					}
+					elseOf = saved
 				}
 			case *ast.SwitchStmt:
 				for _, cl := range x.Body.List {
@@ -234,7 +254,9 @@ func c18Body(c *Ctx, r *Report, info *types.Info, tname string, fd *ast.FuncDecl
 			case *ast.AssignStmt:
 				if len(x.Lhs) == 1 && len(x.Rhs) == 1 {
 					if dst, dstT, ok := fieldOf(x.Lhs[0]); ok {
-						checkSlice(x.Rhs[0], dst, dstT, guardSrc, x.Pos())
+						if !checkSlice(x.Rhs[0], dst, dstT, guardSrc, x.Pos()) && guardSrc != "" && !c18ByteArrayDest(tname, dst) {
+							r.undecided("C18-R2-bit-slice", fmt.Sprintf("%s.expandComponents/%s<-?", tname, dst), c.pos(x.Pos()), "destination "+dst+" is assigned "+strings.ReplaceAll(exprStr(x.Rhs[0]), "\n", " ")+", which is not a bit slice T((src >> s) & (2^b - 1)) of a source field (optionally accumulated): the destination is not the bits of the source for every bit pattern")
+						}
 					}
 				}
 			case *ast.BlockStmt:
@@ -587,4 +609,10 @@ func c18ByteArraySources(c *Ctx, r *Report) {
 	}
 	half("speed", speedE, func(b0, b1, b2 uint64) uint64 { return (b0 | b1<<8 | b2<<16) & 0xFFF })
 	half("distance", distE, func(b0, b1, b2 uint64) uint64 { return ((b0 | b1<<8 | b2<<16) >> 12) & 0xFFF })
+}
+
+// c18ByteArrayDest: destinations computed from the bytes of compressed_speed_distance are
+// decided by C18-R2-byte-array-source instead of the bit-slice shape.
+func c18ByteArrayDest(tname, dst string) bool {
+	return tname == "RecordMsg" && (dst == "Speed" || dst == "Distance")
 }
